@@ -393,7 +393,7 @@ def degenerate(rng, kind="degenerate-values"):
     return out
 
 
-API_VARIANTS = ["pos", "kw", "nostoich", "nondeg", "listfn", "staged", "lazy", "twice", "und", "multi"]
+API_VARIANTS = ["pos", "kw", "nostoich", "nondeg", "listfn", "staged", "lazy", "twice", "und", "multi", "multidi"]
 
 
 def api_surface(rng, kind="api"):
@@ -405,7 +405,7 @@ def api_surface(rng, kind="api"):
     out = []
     for b in base:
         for v in API_VARIANTS:
-            for view in (("bip_int",) if v in ("und", "multi") else ("hyper", "bip_int") if v in ("pos", "staged") else ("hyper",)):
+            for view in (("bip_int",) if v in ("und", "multi", "multidi") else ("hyper", "bip_int") if v in ("pos", "staged") else ("hyper",)):
                 c = dict(b)
                 c.update(kind=kind, api=v, view=view, name="api/%s/%s/%s" % (v, view, b["name"].split("/", 1)[1]))
                 out.append(c)
